@@ -349,6 +349,10 @@ func (p *Proxy) handleCONNECT(r responder.Responder, proxyReq *http.Request) err
 		if err := p.handleHTTP(exchange, req); err != nil {
 			slog.Error("Error processing HTTP request in CONNECT tunnel", "host", proxyReq.Host, "error", err)
 		}
+		// Whatever is left of the request body (a request answered from the store, or with an
+		// error, never reads it) must not be parsed as the next request of this tunnel.
+		io.Copy(io.Discard, req.Body)
+		req.Body.Close()
 	}
 
 	slog.Debug("Exiting CONNECT tunnel", "host", proxyReq.Host)
